@@ -1191,7 +1191,7 @@ def dfs_roles(repo=None):
 
 
 class SortDFS(C02Graph):
-    """SMT contract of the explicit-stack DFS (three nested loop invariants), nbunch=None, reverse=False ('dfs') and reverse=True ('dfs-reverse'):
+    """SMT contract of the explicit-stack DFS (three nested loop invariants), nbunch=None, `reverse` an arbitrary (symbolic) bool:
     on every normal exit the result lists exactly the node set of G, every node once, and is a TOPOLOGICAL order: every edge (u, v) of G has u
     before v (reverse=True: after v) - for ALL graphs (hence: a graph with a cycle or a self-loop never returns normally); G[w] is only asked for
     nodes of G; pop() only on a non-empty stack.
@@ -1204,10 +1204,6 @@ class SortDFS(C02Graph):
     fin = 3
     nodes, refs = 3, 4
 
-    def __init__(self, reverse=False):
-        self.reverse = reverse                 # reverse=False: the call of get_execution_order (parents first); reverse=True: the post-order itself
-        self.label = 'dfs-reverse' if reverse else 'dfs'
-
     def env(self, vc):
         return _dfs_env()
 
@@ -1216,7 +1212,8 @@ class SortDFS(C02Graph):
         s.G.__class__ = DGraph
         vc.axioms = s.th.name_order_axioms()
         s.r = NS(dfs_roles(vc.repo))
-        return s, (s.G,), ({'reverse': True} if self.reverse else {})
+        s.rev = z3.Bool('reverse')             # BOTH values in one run (the loops are cut once; only the final `if reverse:` forks): False = the call of get_execution_order
+        return s, (s.G,), {'reverse': SBool(s.rev)}
 
     def requires(self, s):
         return [s.G.wf()]
@@ -1316,9 +1313,10 @@ class SortDFS(C02Graph):
         order = getattr(head, r.order)
         idx = order.ghost
         n = result.n
-        pos = (lambda x: idx(x)) if self.reverse else (lambda x: n - 1 - idx(x))      # witness of "x occurs in the result at ..." (proof hint; every clause below also states at(pos(x)) == x)
+        rev = s.rev
+        pos = lambda x: z3.If(rev, idx(x), n - 1 - idx(x))      # witness of "x occurs in the result at ..." (proof hint; every clause below also states at(pos(x)) == x)
         at = lambda i: result.elt(i).t
-        before = (lambda u, v: pos(v) < pos(u)) if self.reverse else (lambda u, v: pos(u) < pos(v))
+        before = lambda u, v: z3.If(rev, pos(v) < pos(u), pos(u) < pos(v))
         # ghost step (proved as an obligation of its own, then used): a consequence of sorted()'s contract for the FIRST sorted() call, the roots -
         # every member x of the sorted set sits at position pinv(idx(x)) of the sorted list
         srt = s.vc.libcalls.get('sorted')
@@ -1330,8 +1328,7 @@ class SortDFS(C02Graph):
         return [('the result has one entry per explored node', n == order.n),
                 ('every node of G occurs in the result', th.forall_nodes(lambda x: z3.Implies(g.node(x), z3.And(pos(x) >= 0, pos(x) < n, at(pos(x)) == x)))),
                 ('every entry is a node of G and occurs once (its position is determined by the node)', forall_range(0, n, lambda i: z3.And(g.node(at(i)), pos(at(i)) == i), 'i')),
-                ('TOPOLOGICAL (reverse=True: every edge (u, v) of G has u AFTER v in the result)' if self.reverse else
-                 'TOPOLOGICAL (every edge (u, v) of G has u BEFORE v in the result: parents are executed first)',
+                ('TOPOLOGICAL (every edge (u, v) of G has u BEFORE v in the result: parents are executed first; with reverse=True: u AFTER v)',
                  th.forall_nodes(lambda u, v: z3.Implies(g.edge(u, v), z3.And(pos(u) >= 0, pos(u) < n, pos(v) >= 0, pos(v) < n, at(pos(u)) == u, at(pos(v)) == v, before(u, v))), 2)),
                 ('the graph is not modified', same_structure(th, g, s.G.snap()))]
 
@@ -1387,7 +1384,7 @@ CONTRACTS = [RSLoad('int-cache'), RSLoad('int-nocache'), RSLoad('global'), RSLoa
              LoadData(), PoolLoad('pool'), PoolLoad('no-pool'), Submit('override'), Submit('no-override'), Compute(),
              ReadsFrame('elfi/executor.py::nx_constant_topological_sort', SORT_ALLOWED),
              ReadsFrame('elfi/executor.py::Executor.get_execution_order', EXEC_ALLOWED, ('nx_constant_topological_sort',)),
-             SortDFS(), SortDFS(reverse=True), CacheFrame(), CacheHitLemma(), FreshContextFrame(), RngFrame(), NameOrder()]
+             SortDFS(), CacheFrame(), CacheHitLemma(), FreshContextFrame(), RngFrame(), NameOrder()]
 
 TRUSTED_BASE = ['pyvc engine: proxies, path forking, loop cutting, instrumenter rewrites (see pyvc/README.md)',
                 'pyvc.nxspec: model of networkx.DiGraph / dict heap / sets (sanity-tested on the installed networkx every run); DiGraph(G) = shallow copy that SHARES values such as graph["outputs"]',
